@@ -215,7 +215,7 @@ def run(ctx):
     for at in boundaries:
         if 0 < at < len(content):
             faults.append({"kind": "xml-cut", "at": at})
-    for text in ("0", "-1", "x", "1.5", "", "1e2", " "):
+    for text in ("0", "-1", "x", "1.5", "", "1e2", " ", "--1", "+-1", "-", "+", "0x2", "1 2", "1_0x", "\u00b2", "1\u00b2", "\u2460", "\u2082", "\u0663x", "-0", "00", "NaN", "1,0"):
         faults.append({"kind": "bad-column-count", "text": text})
         faults.append({"kind": "bad-row-count", "text": text})
     for sheets in (1, 2, 3):
